@@ -66,6 +66,26 @@ def takeTwoSrc (ts : List String) : Option (TwoSrc Float × List String) := do
   let (a8, ts) ← takeCx ts
   pure (⟨a1, a2, a3, a4, a5, a6, a7, a8⟩, ts)
 
+/-- `<count> <x>*` printed back -/
+def putFls (xs : List Float) : String :=
+  if xs.isEmpty then "0" else toString xs.length ++ " " ++ fls xs
+
+/-- `<m> (name <count> <x>*)*m` -/
+def takeNamed : Nat → List String → Option (List (String × List Float) × List String)
+  | 0, r => some ([], r)
+  | n + 1, name :: r => do
+    let (xs, r') ← takeFls r
+    let (rest, r'') ← takeNamed n r'
+    pure ((name, xs) :: rest, r'')
+  | _ + 1, [] => none
+
+def putNamed (m : List (String × List Float)) : String :=
+  " ".intercalate (toString m.length :: m.map fun e => e.1 ++ " " ++ putFls e.2)
+
+def putTwoRes (r : TwoRes (List Float)) : String :=
+  putFls r.ss ++ " " ++ putFls r.ii ++ " " ++ putFls r.si
+
+
 def handle (op : String) (args : List String) : Option String :=
   match op with
   | "jsi_norm" => do
@@ -134,6 +154,32 @@ def handle (op : String) (args : List String) : Option String :=
           | .ok (x, y, z) => fls [x, y, z]
           | .err e => "ERR:" ++ e
           | .panic _ => "PANIC")
+      | _ => none
+    | _ => none
+  | "hom2_named" => do
+    -- route ss ii si (each `<count> <x>*`) → the by-name view in key order
+    match args with
+    | _route :: ts => do
+      let (a, ts) ← takeFls ts
+      let (b, ts) ← takeFls ts
+      let (c, _) ← takeFls ts
+      pure (putNamed (namedSorted (TwoRes.toNamed ⟨a, b, c⟩)))
+    | _ => none
+  | "hom2_unnamed" => do
+    -- mode(default|strict) default-value <m> (name value)*m → ss ii si
+    match args with
+    | mode :: ts => do
+      let (d, ts) ← takeFls ts
+      match ts with
+      | m :: ts => do
+        let m ← parseNat m
+        let (es, _) ← takeNamed m ts
+        if mode == "strict" then
+          pure (match TwoRes.ofNamedStrict es with
+            | .ok r => putTwoRes r
+            | .err e => "ERR:" ++ (e.replace " " "-").replace "`" ""
+            | .panic _ => "PANIC")
+        else pure (putTwoRes (TwoRes.ofNamed d es))
       | _ => none
     | _ => none
   | "schmidt" => do
